@@ -242,6 +242,10 @@ def gen_rule(rng, rfc=True):
 
 
 ODD = [  # outside the domain: compared with the model only
+    # integers given as text in the spellings int() accepts
+    [("FREQ", "MONTHLY"), ("BYSETPOS", ["+2", "-1"])], [("FREQ", "MONTHLY"), ("BYMONTHDAY", "+15")], [("FREQ", "DAILY"), ("BYHOUR", "08")],
+    [("FREQ", "DAILY"), ("INTERVAL", " 5")], [("FREQ", "DAILY"), ("COUNT", "1_0")], [("FREQ", "DAILY"), ("BYMINUTE", ["05", "+30"])],
+    [("FREQ", "YEARLY"), ("BYYEARDAY", ("+32", "-1"))], [("FREQ", "YEARLY"), ("BYWEEKNO", "+05")],
     [("FREQ", "DAILY"), ("BYMONTH", -5)],
     [("FREQ", "DAILY"), ("BYDAY", [])],
     [("FREQ", "DAILY"), ("BYDAY", "+MO")],
@@ -488,6 +492,12 @@ def run(ctx, res):
         elif m is not None:
             res.corr("vRecur.to_ical", inp, txt, m)
         if kind == "odd":
+            # values of unusual Python types (numbers given as text ...): no claim about typed equality, but where the faithful
+            # model's text is in the grammar the implementation's must be too, and it must be a fixed point of decode + encode
+            if m is not None and m[:1] != ["unsupported"] and m_gram == 1 and not isinstance(txt, list):
+                if not regex_grammar(txt) or (txt2 != txt and not isinstance(txt2, list)):
+                    res.fail("C19 (unusual value types): the encoded text is outside the RECUR grammar or is not stable under "
+                             "decode + encode", inp, observed=[txt, txt2])
             continue
         # ---- the property on the implementation (direct oracle, independent of the model)
         if in_guard is None:
